@@ -63,6 +63,7 @@ class PyReader:
         self.where = where
         self.depth_limit = depth_limit
         self.depth = 0
+        self.hazards: list = []
 
     def _imports(self, module: str, name: str) -> bool:
         return any(isinstance(s, ast.ImportFrom) and s.module == module and any(a.name == name and a.asname is None for a in s.names) for s in self.module.body)
@@ -175,6 +176,8 @@ class PyReader:
             k = self.ev(t.slice, env, {})
             if isinstance(base, list) and isinstance(k, int):
                 base[k] = v
+            elif isinstance(base, dict):
+                base[k] = v
             else:
                 self.fail(node, "subscript store")
         else:
@@ -224,6 +227,9 @@ class PyReader:
                     return base.system
             if isinstance(base, Sys) and n.attr in ("coord_system_type", "_coord_system_type"):
                 return ("kind", base.kind)
+            r = self.hook_attr(base, n.attr, n)
+            if r is not NotImplemented:
+                return r
             self.fail(n, "attribute")
         if isinstance(n, ast.UnaryOp):
             v = self.ev(n.operand, env, fns)
@@ -291,6 +297,11 @@ class PyReader:
             return out
         if isinstance(n, ast.Subscript):
             base = self.ev(n.value, env, fns)
+            if isinstance(base, dict):
+                k = self.ev(n.slice, env, fns)
+                if k in base:
+                    return base[k]
+                raise Raised("KeyError", getattr(n, "lineno", 0))
             if isinstance(base, list):
                 if isinstance(n.slice, ast.Slice):
                     lo = self.ev(n.slice.lower, env, fns) if n.slice.lower is not None else None
@@ -313,6 +324,19 @@ class PyReader:
                 self.assign(g.target, x, e2, n)
                 out.append(self.ev(n.elt, e2, fns))
             return out
+        if isinstance(n, ast.DictComp) and len(n.generators) == 1 and not n.generators[0].ifs:
+            g = n.generators[0]
+            it = self.ev(g.iter, env, fns)
+            if not isinstance(it, list):
+                self.fail(g.iter, "comprehension over a non-concrete sequence")
+            out = {}
+            for x in it:
+                e2 = dict(env)
+                self.assign(g.target, x, e2, n)
+                out[self.ev(n.key, e2, fns)] = self.ev(n.value, e2, fns)
+            return out
+        if isinstance(n, ast.Dict) and all(k is not None for k in n.keys):
+            return {self.ev(k, env, fns): self.ev(v, env, fns) for k, v in zip(n.keys, n.values)}
         if isinstance(n, ast.Call):
             return self.ev_call(n, env, fns)
         self.fail(n, type(n).__name__)
@@ -323,6 +347,48 @@ class PyReader:
         if isinstance(v, int) and not isinstance(v, bool):
             return num(v)
         self.fail(n, f"expected a scalar, got {type(v).__name__}")
+
+    def hook_attr(self, base, attr: str, n: ast.AST):
+        """hook for attributes of rule-specific objects; NotImplemented = not known"""
+        return NotImplemented
+
+    def hook_method(self, base, attr: str, args: list, kwargs: dict, n: ast.Call):
+        """hook for methods of rule-specific objects; NotImplemented = not known"""
+        return NotImplemented
+
+    def subs(self, base, args: list, kwargs: dict, n: ast.AST):
+        """SymPy's .subs on a term: (old, new) | mapping | list of pairs; sequential unless simultaneous=True. A mapping with
+        several entries applied sequentially is applied by SymPy in an order derived from the keys' names: when the result
+        depends on that order the substitution is recorded in self.hazards (and the insertion order is used)."""
+        from .alg import substitute
+        t = self.scalar(base, n)
+        if len(args) == 2:
+            pairs = [(args[0], args[1])]
+            simultaneous = True
+        elif len(args) == 1 and isinstance(args[0], dict):
+            pairs = list(args[0].items())
+            simultaneous = bool(kwargs.get("simultaneous", False))
+        elif len(args) == 1 and isinstance(args[0], list) and all(isinstance(x, list) and len(x) == 2 for x in args[0]):
+            pairs = [(a, b) for a, b in args[0]]
+            simultaneous = bool(kwargs.get("simultaneous", False))
+        else:
+            self.fail(n, ".subs() arguments")
+        for k, _ in pairs:
+            if not (isinstance(k, T) and k.op == "var"):
+                self.fail(n, ".subs() of something that is not a plain symbol")
+        if simultaneous or len(pairs) <= 1:
+            return substitute(t, {k.val: self.scalar(v, n) for k, v in pairs})
+        import itertools
+        results = []
+        for perm in itertools.permutations(pairs) if (len(pairs) <= 4 and isinstance(args[0], dict)) else [pairs]:
+            r = t
+            for k, v in perm:
+                r = substitute(r, {k.val: self.scalar(v, n)})
+            results.append(r)
+        if any(repr(r) != repr(results[0]) for r in results[1:]):
+            self.hazards.append((n, "the entries of a mapping are substituted one after another, in an order SymPy derives from the symbols' names, "
+                                    "and the result depends on that order"))
+        return results[0]
 
     def hook_call(self, n: ast.Call, env: dict, fns: dict):
         """hook for rule-specific callees; return NotImplemented to fall through"""
@@ -361,7 +427,36 @@ class PyReader:
             else:
                 args.append(self.ev(a, env, fns))
         kwargs = {k.arg: self.ev(k.value, env, fns) for k in n.keywords if k.arg}
-        if name == "len" and len(args) == 1 and isinstance(args[0], list):
+        if isinstance(n.func, ast.Attribute) and n.func.attr in ("subs", "items", "values", "keys", "get", "xreplace") or \
+                (isinstance(n.func, ast.Attribute) and not isinstance(n.func.value, ast.Name)) or \
+                (isinstance(n.func, ast.Attribute) and isinstance(n.func.value, ast.Name) and n.func.value.id in env):
+            base = None
+            try:
+                base = self.ev(n.func.value, env, fns)
+            except AnalysisError:
+                base = None
+            if base is not None:
+                if isinstance(base, dict):
+                    if n.func.attr == "items":
+                        return [[k, v] for k, v in base.items()]
+                    if n.func.attr == "values":
+                        return list(base.values())
+                    if n.func.attr == "keys":
+                        return list(base.keys())
+                    if n.func.attr == "get" and args:
+                        return base.get(args[0], args[1] if len(args) > 1 else None)
+                if n.func.attr in ("subs", "xreplace") and isinstance(base, (T, int)) and not isinstance(base, bool):
+                    if n.func.attr == "xreplace":
+                        kwargs = dict(kwargs, simultaneous=True)
+                    return self.subs(base, args, kwargs, n)
+                r = self.hook_method(base, n.func.attr, args, kwargs, n)
+                if r is not NotImplemented:
+                    return r
+        if name == "dict" and len(args) == 1 and isinstance(args[0], list) and all(isinstance(x, list) and len(x) == 2 for x in args[0]):
+            return {k: v for k, v in args[0]}
+        if name == "dict" and len(args) == 1 and isinstance(args[0], dict):
+            return dict(args[0])
+        if name == "len" and len(args) == 1 and isinstance(args[0], (list, dict)):
             return len(args[0])
         if name in ("max", "min") and args and all(isinstance(a, int) for a in args):
             return max(args) if name == "max" else min(args)
